@@ -60,7 +60,7 @@ CLAIMED = {
  "C02": ("fault_enumeration",
          "runtime monitor with fault injection at the database wire protocol and at the coordinator: every command position of a program's baseline journal x {error, connection dropped before/after}, registration refused/failed/unanswered, failing branch reports; offline invariants over the merged database journal and coordinator log",
          "Per (program, fault): register reply < undo-log insert < COMMIT on one connection with the granted branch id; business rows durable iff the undo row is durable; on failure the caller gets an error, nothing is durable, a registered branch is reported PhaseOne_Failed, and no pooled connection is left idle inside a transaction.",
-         "Fault positions come from a fault-free baseline run of the same program on a fresh table. A failing COMMIT is modelled as InnoDB does (nothing committed, transaction ended). SIGKILL crash points are not part of the quick tier.",
+         "Fault positions come from a fault-free baseline run of the same program on a fresh table. A failing COMMIT is modelled as InnoDB does (nothing committed, transaction ended). Client crash points (SIGKILL just before / right after every command position) run for 2 programs in the quick tier and 10 in the thorough tier, each crash in a client of its own.",
          "DESIGN.md §4 C02"),
  "C03": ("exploration",
          "runtime monitor: lock keys parsed independently from BranchRegister / GlobalLockQuery frames in the fake coordinator's log vs. the rows each COMMIT made durable in the fake database's journal; scripted lock-query answers; two overlapping global transactions under scripted reply orders",
